@@ -89,7 +89,9 @@ bool is_compatible(Type *t1, Type *t2) {
   case TY_ARRAY:
     if (!is_compatible(t1->base, t2->base))
       return false;
-    return t1->array_len < 0 && t2->array_len < 0 &&
+    // [https://www.sigbus.info/n1570#6.7.6.2p6] Arrays of compatible
+    // elements are compatible unless both lengths are known and differ.
+    return t1->array_len < 0 || t2->array_len < 0 ||
            t1->array_len == t2->array_len;
   }
   return false;
